@@ -29,7 +29,6 @@ from typelib.py import classes, compat, inspection, refs
 __all__ = ("static_order", "itertypes", "get_type_graph")
 
 
-@compat.cache
 def static_order(
     t: type | str | refs.ForwardRef | compat.TypeAliasType,
 ) -> typing.Sequence[TypeNode]:
@@ -48,14 +47,22 @@ def static_order(
 
         To avoid memoization, you can make use of [`itertypes`][typelib.graph.itertypes].
     """
+    # The memoized order is immutable; every caller gets a list of its own.
+    return [*_static_order(t)]
+
+
+@compat.cache
+def _static_order(
+    t: type | str | refs.ForwardRef | compat.TypeAliasType,
+) -> tuple[TypeNode, ...]:
     # We want to leverage the cache if possible, hence the recursive call.
     #   Shouldn't actually recurse more than once or twice.
     if isinstance(t, (str, refs.ForwardRef)):
         ref = refs.forwardref(t) if isinstance(t, str) else t
         t = refs.evaluate(ref)
-        return static_order(t)
+        return _static_order(t)
 
-    return [*itertypes(t)]
+    return (*itertypes(t),)
 
 
 def itertypes(
